@@ -2,6 +2,7 @@ package rpc
 
 import (
 	"context"
+	"errors"
 	"fmt"
 	"net"
 	"os"
@@ -227,7 +228,16 @@ func (m *Mux) accept(e *am.Event, l net.Listener) {
 		// TODO handle ErrListenerClosed and ErrServerClosed
 		conn, err := l.Accept()
 		if err != nil {
+			// a closed listener stays closed
+			if mach.IsDisposed() || mach.Not1(ssM.Start) {
+				return
+			}
 			mach.AddErr(err, nil)
+			if errors.Is(err, net.ErrClosed) ||
+				errors.Is(err, cmux.ErrListenerClosed) ||
+				errors.Is(err, cmux.ErrServerClosed) {
+				return
+			}
 			continue
 		}
 		m.Mach.Add1(ssM.ClientConnected, Pass(&A{
